@@ -497,6 +497,10 @@ func (w *workerState) layer(blob []byte, idx []int, report bool) {
 			l.Close()
 		}()
 	}
+	// What the calls left to the garbage collector is finalized now, while the
+	// parent still charges a death of the worker to this layer (a finalizer
+	// that panics - a handle that was not closed - cannot be recovered).
+	drainFinalizers()
 	if report {
 		w.send('D', "")
 	}
@@ -595,6 +599,22 @@ func (w *workerState) realScan(blob []byte, desc *claircore.LayerDescription) ca
 		w.store.mu.Unlock()
 		return n, err
 	})
+}
+
+// drainFinalizers collects twice and waits until the finalizer goroutine has
+// worked through what the collections queued (a sentinel queued last).
+func drainFinalizers() {
+	for round := 0; round < 2; round++ {
+		done := make(chan struct{})
+		x := new([64]byte)
+		runtime.SetFinalizer(x, func(*[64]byte) { close(done) })
+		x = nil
+		runtime.GC()
+		select {
+		case <-done:
+		case <-time.After(200 * time.Millisecond):
+		}
+	}
 }
 
 func workerMain() {
